@@ -429,34 +429,46 @@ class _MatrixCase(Case):
     """Estimators whose input is a (sparse) matrix: items are rows of a base matrix."""
 
     def build(self, ids, for_fit=False):
-        m = self.base[list(ids)]
-        m = self._dirty(m, for_fit)
-        return m, {}
-
-    def _dirty(self, m, for_fit):
-        fmt = self.in_format
-        m = m.tocsr().copy()
-        if self.explicit_zero and m.nnz > 0:
-            m.data[0] = 0.0          # an explicit zero the caller may rely on
-        if fmt == "csc":
+        """Rows are assembled item by item, so that an item's stored entries (explicit zeros, entry order)
+        do not depend on its position in the batch."""
+        indptr, indices, data = [0], [], []
+        for i in ids:
+            cols, vals = self.item_rows[i]
+            indices.extend(cols)
+            data.extend(vals)
+            indptr.append(len(indices))
+        m = scipy.sparse.csr_matrix((np.asarray(data, dtype=np.float64), np.asarray(indices, dtype=np.int32),
+                                     np.asarray(indptr, dtype=np.int32)), shape=(len(ids), self.base.shape[1]))
+        if not self.unsorted:
+            m.has_sorted_indices = True
+        if self.in_format == "csc":
             m = m.tocsc()
             if self.unsorted and m.nnz > 1:
-                # reverse the entries inside each column: valid CSC with unsorted indices
+                # reverse the entries inside each column: a valid CSC matrix with unsorted indices
                 for j in range(m.shape[1]):
                     s, e = m.indptr[j], m.indptr[j + 1]
                     m.indices[s:e] = m.indices[s:e][::-1].copy()
                     m.data[s:e] = m.data[s:e][::-1].copy()
                 m.has_sorted_indices = False
-        elif fmt == "csr":
-            if self.unsorted and m.nnz > 1:
-                for j in range(m.shape[0]):
-                    s, e = m.indptr[j], m.indptr[j + 1]
-                    m.indices[s:e] = m.indices[s:e][::-1].copy()
-                    m.data[s:e] = m.data[s:e][::-1].copy()
-                m.has_sorted_indices = False
-        elif fmt == "dense":
+        elif self.in_format == "dense":
             m = m.toarray()
-        return m
+        return m, {}
+
+    def _finish_items(self, tape, kind):
+        """Per-item stored entries: optional explicit zero, optional descending column order."""
+        self.item_rows = []
+        n_cols = self.base.shape[1]
+        for i in range(self.base.shape[0]):
+            row = self.base[i]
+            cols = row.indices.tolist()
+            vals = row.data.tolist()
+            if self.explicit_zero and i % 3 == 0:
+                free = [c for c in range(n_cols) if c not in cols]
+                if free:
+                    cols.append(free[0])
+                    vals.append(0.0)
+            order = sorted(range(len(cols)), key=lambda k: cols[k], reverse=(self.unsorted and self.in_format == "csr"))
+            self.item_rows.append(([cols[k] for k in order], [vals[k] for k in order]))
 
     def _draw_matrix(self, tape, kind, allow_empty_row=False):
         n_cols = tape.choice(kind + ".ncols", [4, 7, 12])
@@ -470,6 +482,7 @@ class _MatrixCase(Case):
         self.train_ids = list(range(ntrain))
         self.desc.update(shape=[n_rows, n_cols], in_format=self.in_format, explicit_zero=self.explicit_zero,
                          unsorted_indices=self.unsorted, ntrain=ntrain)
+        self._finish_items(tape, kind)
 
 
 class InfoWeightCase(_MatrixCase):
@@ -510,6 +523,7 @@ class RowDenoiseCase(_MatrixCase):
         if c.in_format == "dense":
             c.in_format = "csr"
             c.desc["in_format"] = "csr"
+            c._finish_items(tape, "rd")
         c.params = {"normalize": tape.chance("rd.normalize", 1, 2), "em_prior_strength": tape.choice("rd.ps", [0.5, 0.1]),
                     "em_background_prior": tape.choice("rd.bg", [1.0, 5.0])}
         c.desc.update(params=dict(c.params))
@@ -526,6 +540,7 @@ class CFCCase(_MatrixCase):
         c.cls = CountFeatureCompressionTransformer
         c._draw_matrix(tape, "cfc")
         c.unsorted = False
+        c._finish_items(tape, "cfc")
         c.params = {"n_components": tape.choice("cfc.n", [2, 3]), "algorithm": tape.choice("cfc.alg", ["randomized", "arpack"]),
                     "random_state": tape.choice("cfc.rs", [0, 11]), "n_iter": 4}
         c.desc.update(params=dict(c.params))
